@@ -264,6 +264,19 @@ def mb_configs():
         for sub in ("plain", "spec"):
             for new_on in (None, "A", "B"):
                 yield {"bstyle": bstyle, "sub": sub, "new_on": new_on}
+    # a common (lazily bootstrapped) spec-class root under both bases: the plain diamond
+    for bstyle in ("lit", "attr"):
+        for sub in ("plain", "spec"):
+            for new_on in (None, "A", "B", "Root"):
+                yield {"bstyle": bstyle, "sub": sub, "new_on": new_on, "root": True}
+    # a decorated class C below the undecorated P(A, B), re-annotating b without a default of its own
+    for bstyle in ("lit", "attr", "field", "attr_factory_norepr"):
+        for root in (False, True):
+            yield {"bstyle": bstyle, "sub": "plain", "new_on": None, "root": root, "below": True}
+
+
+def mb_uses(cfg):
+    return MB_USES + (["C()", "meta:C"] if cfg.get("below") else [])
 
 
 def mb_run(cfg, uses, eager):
@@ -277,18 +290,27 @@ def mb_run(cfg, uses, eager):
         return __new__
 
     a_ns = {"__annotations__": {"a": int}, "a": 1, "__module__": "vf.generated"}
-    b_default = {"lit": 2, "attr": Attr(default=2), "field": dataclasses.field(default=2)}[cfg["bstyle"]]
+    b_default = {"lit": 2, "attr": Attr(default=2), "field": dataclasses.field(default=2),
+                 "attr_factory_norepr": Attr(default_factory=lambda: 2, repr=False)}[cfg["bstyle"]]
     b_ns = {"__annotations__": {"b": int}, "b": b_default, "__module__": "vf.generated"}
     if cfg["new_on"] == "A":
         a_ns["__new__"] = mk_new("A")
     if cfg["new_on"] == "B":
         b_ns["__new__"] = mk_new("B")
-    A = spec_class(bootstrap=eager)(type("A", (), a_ns))
-    B = spec_class(bootstrap=eager)(type("B", (), b_ns))
+    bases = ()
+    if cfg.get("root"):
+        r_ns = {"__annotations__": {"r": int}, "r": 0, "__module__": "vf.generated"}
+        if cfg["new_on"] == "Root":
+            r_ns["__new__"] = mk_new("Root")
+        bases = (spec_class(bootstrap=eager)(type("Root", (), r_ns)),)
+    A = spec_class(bootstrap=eager)(type("A", bases, a_ns))
+    B = spec_class(bootstrap=eager)(type("B", bases, b_ns))
     P = type("P", (A, B), {"__module__": "vf.generated"})
     if cfg["sub"] == "spec":
         P = spec_class(bootstrap=eager)(P)
     env_ = {"A": A, "B": B, "P": P}
+    if cfg.get("below"):
+        env_["C"] = spec_class(bootstrap=eager)(type("C", (P,), {"__annotations__": {"b": int, "c": int}, "c": 3, "__module__": "vf.generated"}))
     out = []
     for u in uses:
         try:
@@ -304,7 +326,8 @@ def mb_run(cfg, uses, eager):
     desc = {}
     for n, c in env_.items():
         md = c.__spec_class__
-        desc[n] = (sorted(md.attrs), md.owner.__name__, sorted(k for k in vars(c) if k.startswith(("with_", "update", "transform", "reset", "__spec_class_"))))
+        desc[n] = (sorted(md.attrs), md.owner.__name__, sorted(k for k in vars(c) if k.startswith(("with_", "update", "transform", "reset", "__spec_class_"))),
+                   sorted((k, a.has_default, a.repr, a.init) for k, a in md.attrs.items()))
     return out, desc
 
 
@@ -364,7 +387,7 @@ def run_unit(ctx, unit):
         maxlen = 3 if ctx.tier == "thorough" else 2
         for cfg in mb_configs():
             for n in range(1, maxlen + 1):
-                for uses in itertools.permutations(MB_USES, n):
+                for uses in itertools.permutations(mb_uses(cfg), n):
                     j += 1
                     if j % unit[2] != unit[1]:
                         continue
